@@ -151,4 +151,37 @@ macro_rules
     | ((with_reducible apply ks_clearAfeToMarker); keeps_ok $h)
     | ((with_reducible apply ks_removeFromAfe); keeps_ok $h))
 
+/-- `PNoSel n ns` from the branch hypotheses -/
+macro "psel" : tactic =>
+  `(tactic| first
+    | (simp [PNoSel]; done)
+    | (simp_all [PNoSel]; done))
+
+/-- `TreeOk PNoSel <tree expression>`, as `tree_ok` -/
+syntax "sel_ok" : tactic
+macro_rules
+  | `(tactic| sel_ok) => `(tactic| first
+    | assumption
+    | (refine TreeOk.insertAndPop ?_ _ _; sel_ok)
+    | (refine TreeOk.insertHtml ?_ _ _ ?_ <;> first | sel_ok | psel)
+    | (refine TreeOk.pushNew ?_ _ _ _ ?_ <;> first | sel_ok | psel)
+    | (refine TreeOk.insertFormatting ?_ _ _ ?_ ?_ <;> first | sel_ok | psel | fmt_name)
+    | (refine TreeOk.reconstructAfe fmtOk_PNoSel ?_; sel_ok)
+    | (refine TreeOk.adoptionAgency fmtOk_PNoSel _ _ ?_; sel_ok)
+    | (refine TreeOk.pop' ?_; sel_ok)
+    | (refine TreeOk.popUntilNamed' _ ?_; sel_ok)
+    | (refine TreeOk.popUntilIn' _ ?_; sel_ok)
+    | (refine TreeOk.clearToTableContext' ?_; sel_ok)
+    | (refine TreeOk.clearToTableBodyContext' ?_; sel_ok)
+    | (refine TreeOk.clearToTableRowContext' ?_; sel_ok)
+    | (refine TreeOk.genImplied' _ ?_; sel_ok)
+    | (refine TreeOk.closeP' ?_; sel_ok)
+    | (refine TreeOk.closePInButtonScope' _ ?_; sel_ok)
+    | (refine TreeOk.removeFromStack' _ ?_; sel_ok)
+    | (refine TreeOk.anyOtherEndTag' _ _ ?_; sel_ok)
+    | (refine TreeOk.pushMarker' ?_; sel_ok)
+    | (refine TreeOk.clearAfeToMarker' ?_; sel_ok)
+    | (refine TreeOk.removeFromAfe' _ ?_; sel_ok)
+    | (refine TreeOk.closeListItem' _ _ ?_; sel_ok))
+
 end LolHtml.Spec.TreeBuilder
